@@ -10,7 +10,7 @@ if os.path.exists(os.path.join(src, 'notes.md')):
     shutil.copy(os.path.join(src, 'notes.md'), dst)
 meta = dict(id=mid, property=prop, needs_to_manifest=needs, origin='independent sub-agent given only the property text and a scratch worktree',
             confirmed=['git -C /repo apply patch.diff; demo.py exits 1; git checkout; demo.py exits 0 (bin/trymut.sh)',
-                       'existing suite: per notes.md of the agent (536 baseline tests still pass)'],
+                       os.environ.get('SUITE_NOTE', 'existing suite: per notes.md of the agent (536 baseline tests still pass)')],
             detection=caught)
 json.dump(meta, open(os.path.join(dst, 'meta.json'), 'w'), indent=1)
 print('saved', dst)
